@@ -7,9 +7,9 @@ git -C $WT checkout -q -- . ; git -C $WT clean -fdq
 git -C $WT apply $OUT/patch$K.diff || { echo "$P-$K: patch does not apply"; exit 1; }
 for m in attachment protocol service shared terminal; do (cd $WT/$m && go build ./... ) || { echo "$P-$K: build fails in $m"; git -C $WT checkout -q -- .; exit 1; }; done
 base=$(/verif/baseline.sh $WT | tail -1)
-demo_with=$(cd $OUT/demo$K && if ls *_test.go >/dev/null 2>&1; then timeout 900 go test -count=1 ./... 2>&1; else timeout 900 go run . 2>&1; fi; echo "exit=$?")
+demo_with=$(cd $OUT/demo$K && if [ -f run.sh ]; then timeout 900 sh run.sh 2>&1; elif ls *_test.go >/dev/null 2>&1; then timeout 900 go test -count=1 ./... 2>&1; else timeout 900 go run . 2>&1; fi; echo "exit=$?")
 git -C $WT checkout -q -- . ; git -C $WT clean -fdq
-demo_without=$(cd $OUT/demo$K && if ls *_test.go >/dev/null 2>&1; then timeout 900 go test -count=1 ./... 2>&1; else timeout 900 go run . 2>&1; fi; echo "exit=$?")
+demo_without=$(cd $OUT/demo$K && if [ -f run.sh ]; then timeout 900 sh run.sh 2>&1; elif ls *_test.go >/dev/null 2>&1; then timeout 900 go test -count=1 ./... 2>&1; else timeout 900 go run . 2>&1; fi; echo "exit=$?")
 mkdir -p $D
 cp $OUT/patch$K.diff $D/patch.diff
 rm -rf $D/demo; cp -r $OUT/demo$K $D/demo
